@@ -145,6 +145,25 @@ def r_add_bad_name(api):
                 return None
             op['rr_name'] = 'r' * 2300
             return ('rr-name-too-long', op, False)
+        if which in ('rr-too-long-reloc', 'iso-dup-reloc'):
+            # refusal of a directory that would have to be relocated (depth 8 with Rock Ridge)
+            if not cfg.rr or cfg.level == 4 or api != 'add_directory':
+                return None
+            deep = [d for d in m.dirs('iso') if m.depth(d) == 7]
+            if not deep:
+                return None
+            name = op['iso_path'].rsplit('/', 1)[1]
+            op['iso_path'] = join(deep[0], name)
+            for k in ('joliet_path', 'udf_path'):
+                op.pop(k, None)
+            if which == 'rr-too-long-reloc':
+                op['rr_name'] = 'r' * 2300
+                return ('rr-name-too-long-relocated', op, False)
+            ex = [p for p in m.dirs('iso') if parent_of(p) == deep[0]]
+            if not ex:
+                return None
+            op['iso_path'] = ex[0]
+            return ('dup-iso-relocated', op, False)
         if which == 'file-mode-plain':
             if cfg.rr:
                 return None
@@ -429,6 +448,8 @@ for api in ('add_fp', 'add_directory'):
         RECIPES.append((api, r_add_missing_parent(api), w))
     for w in ('iso', 'joliet', 'rr-missing', 'rr-slash', 'rr-on-plain', 'joliet-on-plain', 'udf-on-plain', 'depth', 'rr-too-long', 'rr-dup', 'file-mode-plain'):
         RECIPES.append((api, r_add_bad_name(api), w))
+for w in ('rr-too-long-reloc', 'iso-dup-reloc'):
+    RECIPES.append(('add_directory', r_add_bad_name('add_directory'), w))
 for w in ('missing', 'dir', 'boot', 'udf-missing'):
     RECIPES.append(('rm_file', r_rm_file, w))
 for w in ('non-empty', 'missing', 'root', 'file', 'second-missing-joliet', 'second-missing-udf', 'second-nonempty-joliet', 'second-nonempty-udf'):
@@ -555,6 +576,8 @@ def run_case(i, seed, tier):
             return False
         if which in ('rr-missing', 'rr-slash', 'rr-too-long', 'rr-dup') and not c.rr:
             return False
+        if which in ('rr-too-long-reloc', 'iso-dup-reloc') and (not c.rr or c.level == 4):
+            return False
         if which in ('rr-on-plain', 'file-mode-plain') and c.rr:
             return False
         if which == 'joliet-on-plain' and c.joliet:
@@ -580,16 +603,19 @@ def run_case(i, seed, tier):
         h.extend(rng.choice([0, 3]))
     else:
         h = common.History(cfg, cs, rng.choice(['std', 'grow', 'churn']), max_size=3000, max_depth=7 if which == 'depth' else None)
-        if which == 'depth':
+        if which in ('depth', 'rr-too-long-reloc', 'iso-dup-reloc'):
             p = ''
             for d in range(7):
                 p = p + '/' + h.gen.iso_dir_name(cfg.level)
-                h.apply({'op': 'add_directory', 'iso_path': p})
+                h.apply(dict({'op': 'add_directory', 'iso_path': p}, **({'rr_name': h.gen.rr_name(0)} if cfg.rr else {})))
+            if which == 'iso-dup-reloc' or (which == 'rr-too-long-reloc' and rng.random() < 0.5):
+                # a relocated directory exists already (so does the relocation directory)
+                h.apply({'op': 'add_directory', 'iso_path': p + '/' + h.gen.iso_dir_name(cfg.level), 'rr_name': h.gen.rr_name(0)})
         h.extend(rng.choice([3, 8, 16]))
     ops = list(h.ops)
     h.sess.close()
     # injection point and instantiation against the model state at that point
-    inject_at = rng.randint(max(0, len(ops) - 6), len(ops)) if which in ('32nd', 'depth') else rng.randint(0, len(ops))
+    inject_at = rng.randint(max(0, len(ops) - 6), len(ops)) if which in ('32nd', 'depth', 'rr-too-long-reloc', 'iso-dup-reloc') else rng.randint(0, len(ops))
     env.reset(cs)
     s = driver.Session(cfg, cs).new()
     for op in ops[:inject_at]:
